@@ -91,7 +91,7 @@ def ksingle(p, c, n):
     10       1.701632  2.070925  2.410323  3.110845
     1000000  1.644854  2.000003  2.326349  2.999978
     """
-    n = np.asarray(n)
+    n = np.asarray(n, dtype=float)
     sn = np.sqrt(n)
     pnonc = sn * norm.ppf(p)
     return nct.ppf(c, n - 1, pnonc) / sn
@@ -243,7 +243,7 @@ def kdouble(p, c, n, tol=1e-12):
     """
     p = np.asarray(p)
     c = np.asarray(c)
-    n = np.asarray(n)
+    n = np.asarray(n, dtype=float)
     chi = chi2.ppf(1 - c, n - 1)
     r = _getr(n, p, tol)
     return np.sqrt((n - 1) / chi) * r
@@ -382,6 +382,7 @@ def order_stats(which, *, p=None, c=None, n=None, r=None):
 
         def _run_brentq(c, r, p):
             # find [a, b] interval by brute force:
+            r = int(r)
             a = r
             if _func(a, 1 - c, r - 1, 1 - p) >= 0:
                 # the smallest possible sample size already meets `c`
